@@ -74,8 +74,23 @@ def feed_for(ty, rng: random.Random):
 
 
 # ----------------------------------------------------------------------------- generation
+CUSTOM_DOMAINS = [("verif.alpha", 1), ("org.verif.beta", 2), ("zeta.custom", 3)]
+
+
+def custom_model(j: int):
+    """A one-node model whose node lives in a custom operator domain (cannot be run, can be built)."""
+    from onnx import TensorProto as T
+    from onnx import helper as h
+
+    dom, ver = CUSTOM_DOMAINS[j]
+    g = h.make_graph([h.make_node("Twice", ["x"], ["z"], domain=dom, name="cust")], f"cust{j}",
+                     [h.make_tensor_value_info("x", T.FLOAT, [])], [h.make_tensor_value_info("z", T.FLOAT, [])])
+    return h.make_model(g, opset_imports=[h.make_opsetid("", 17), h.make_opsetid(dom, ver)], ir_version=8)
+
+
 class _Gen:
-    def __init__(self, rng, max_depth):
+    def __init__(self, rng, max_depth, domains=False):
+        self.domains = domains
         self.rng = rng
         self.n = 0
         self.max_depth = max_depth
@@ -111,6 +126,12 @@ class _Gen:
                 nd = self.new({"k": rng.choice(["add", "mul"]), "a": rng.choice(vis_sc), "b": rng.choice(vis_sc)})
             elif r < 0.60 and vis_sc:
                 nd = self.new({"k": "neg", "a": rng.choice(vis_sc)})
+            elif self.domains and r < 0.75 and vis_sc:
+                # several operator domains in one model: ai.onnx.ml and custom domains (through inlined models)
+                if rng.random() < 0.4:
+                    nd = self.new({"k": "bin", "a": rng.choice(vis_sc)})
+                else:
+                    nd = self.new({"k": "cust", "a": rng.choice(vis_sc), "j": rng.randrange(len(CUSTOM_DOMAINS))})
             elif r < 0.63 and vis_sc:
                 nd = self.new({"k": "bin", "a": rng.choice(vis_sc)})  # ai.onnx.ml Binarizer: a second opset domain
             elif r < 0.82 and vis_sc and depth < self.max_depth:
@@ -145,9 +166,10 @@ class _Gen:
         return args[: self.rng.choice([0, 0, 1, 1, 2])]
 
 
-def gen_program(rng: random.Random, n_args=None, size=None, max_depth=3):
-    """A random program. Arguments are created first, interleaved with a few other top-level values."""
-    g = _Gen(rng, max_depth)
+def gen_program(rng: random.Random, n_args=None, size=None, max_depth=3, domains=False):
+    """A random program. Arguments are created first, interleaved with a few other top-level values.
+    `domains`: also use operators of custom domains (such programs cannot be run by a runtime)."""
+    g = _Gen(rng, max_depth, domains)
     n_args = (rng.randrange(1, 7) if rng.random() < 0.9 else rng.randrange(7, 11)) if n_args is None else n_args
     size = rng.randrange(1, 9) if size is None else size
     top = []
@@ -159,11 +181,32 @@ def gen_program(rng: random.Random, n_args=None, size=None, max_depth=3):
     scs = [n["id"] for n in top if n["k"] != "arg"]
     blk = g.block(0, args, scs, size, [], [])
     top.extend(blk["nodes"])
+    multi = None
+    if domains:
+        # one value that needs several operator domains at once: "" + ai.onnx.ml + 1-3 custom domains
+        scal = [n["id"] for n in top if n["k"] not in ("arg", "tcast")]
+        if not scal:
+            top.append(g.new({"k": "const", "v": 1.0}))
+            scal = [top[-1]["id"]]
+        parts = []
+        if rng.random() < 0.8:
+            top.append(g.new({"k": "bin", "a": rng.choice(scal)}))
+            parts.append(top[-1]["id"])
+        for j in rng.sample(range(len(CUSTOM_DOMAINS)), rng.randrange(1, len(CUSTOM_DOMAINS) + 1)):
+            top.append(g.new({"k": "cust", "a": rng.choice(scal), "j": j}))
+            parts.append(top[-1]["id"])
+        multi = parts[0]
+        for p_ in parts[1:]:
+            top.append(g.new({"k": "add", "a": multi, "b": p_}))
+            multi = top[-1]["id"]
     if rng.random() < 0.5:
         top.append(g.new({"k": "init", "ty": {"e": rng.choice(["f32", "i64"]), "d": [2]}}))
     if rng.random() < 0.5:
         top.append(g.new({"k": "junk", "v": rng.choice([3, None, "s", 2.5])}))
-    return {"nodes": top, "n": g.n}
+    prog = {"nodes": top, "n": g.n}
+    if multi is not None:
+        prog["multi"] = multi
+    return prog
 
 
 def walk(nodes):
@@ -232,7 +275,7 @@ def free_args(prog, out_ids):
             s = {i}
         elif k in ("const", "init", "junk"):
             s = set()
-        elif k in ("lift", "neg", "bin", "tcast"):
+        elif k in ("lift", "neg", "bin", "tcast", "cust"):
             s = set(of(nd["a"]))
         elif k in ("add", "mul"):
             s = of(nd["a"]) | of(nd["b"])
@@ -337,6 +380,8 @@ def realize(prog, op=None):
                 env[i] = op.mul(env[nd["a"]], env[nd["b"]])
             elif k == "neg":
                 env[i] = op.neg(env[nd["a"]])
+            elif k == "cust":
+                env[i] = spox.inline(custom_model(nd["j"]))(x=env[nd["a"]])["z"]
             elif k == "bin":
                 import spox.opset.ai.onnx.ml.v3 as ml
 
@@ -390,6 +435,8 @@ def evaluate(prog, feeds, out_ids):
             v = np.float32(ev(nd["a"], env) * ev(nd["b"], env))
         elif k == "neg":
             v = np.float32(-ev(nd["a"], env))
+        elif k == "cust":
+            raise ValueError("custom-domain operators have no reference semantics")
         elif k == "bin":
             v = np.float32(1.0 if ev(nd["a"], env) > 0.5 else 0.0)
         elif k == "if":
